@@ -117,6 +117,10 @@ EvalEqualsFresh == evald => /\ \A g \in 1..NG : outk[g] = Fresh(win, tp)
 TwinEqualsXsec  == evald => \A g \in 1..NG : outk[g] = outx
 \* the result is defined on exactly the requested points
 OnRequestedGrid == evald => \A g \in 1..NG : DOMAIN outk[g] = Req(win)
+\* the design variants that must satisfy the invariants, and the mutants, in ONE model-checking run
+Sound     == Key \in {"none", "content", "ends"} /\ ModeRead = "eval"
+HoldFresh == Sound => EvalEqualsFresh
+HoldTwin  == Sound => TwinEqualsXsec
 \* one invariant per design mutant (expected counterexamples, TLC -continue reports each)
 RefuteSize    == Key = "size" => EvalEqualsFresh
 RefuteFirst   == Key = "first" => EvalEqualsFresh
